@@ -166,6 +166,10 @@ func run(t *testing.T, tape *simrt.Tape) *common.Outcome {
 	secu := "insecure"
 	if noise {
 		secu = "noise"
+		// Noise sets the connection's read deadline to the very instant of the context deadline; once a stall
+		// lets both pass, the reader (woken by simnet's deadline timer, no scheduling point before its send)
+		// races the context's timer goroutine for real. Stalls are therefore drawn for insecure runs only.
+		stall = 0
 	}
 	const ownAddr = "/ip4/10.0.0.1/tcp/4001"
 	keyD, keyQ := simhost.DetKey(1), simhost.DetKey(12)
@@ -547,6 +551,12 @@ func run(t *testing.T, tape *simrt.Tape) *common.Outcome {
 	})
 	o.Sched = res
 	o.Virtual = res.Virtual
+	if f := os.Getenv("C05_DUMP"); f != "" {
+		if fh, err := os.OpenFile(f, os.O_APPEND|os.O_CREATE|os.O_WRONLY, 0o644); err == nil {
+			fmt.Fprintf(fh, "==== run\n%s\n", strings.Join(res.Trace, "\n"))
+			fh.Close()
+		}
+	}
 	if res.Panic != "" {
 		o.Violate("C05/panic", "%s", res.Panic)
 		return o
@@ -574,6 +584,13 @@ func run(t *testing.T, tape *simrt.Tape) *common.Outcome {
 		o.Logf("%s p%d inv=%d@%v ret=%d@%v %s ctx=%v%s", c.name(), c.peer, c.inv, c.invAt, c.ret, c.retAt, c.outcome(), c.ctxErr, extra)
 		if c.returned && !c.ok && c.err != nil && !c.probe {
 			o.Logf("     err: %s", strings.ReplaceAll(c.err.Error(), "\n", " | "))
+		}
+	}
+
+	if f := os.Getenv("C05_DUMP"); f != "" {
+		if fh, err := os.OpenFile(f+".trace", os.O_APPEND|os.O_CREATE|os.O_WRONLY, 0o644); err == nil {
+			fmt.Fprintf(fh, "==== run\n%s\n", strings.Join(o.Trace, "\n"))
+			fh.Close()
 		}
 	}
 
@@ -771,7 +788,7 @@ func checkCaller(o *common.Outcome, w *world, c *caller, callers []*caller, exac
 		// (6) the shared attempt must not be cancelled while a caller (this one) is still waiting
 		if errors.Is(te.Cause, context.Canceled) {
 			o.Violate("C05/shared-attempt-cancelled", "%s (own context alive) was told that the dial of %s was cancelled: %v", c.name(), a, te.Cause)
-		} else if errors.Is(te.Cause, context.DeadlineExceeded) {
+		} else if errors.Is(te.Cause, context.DeadlineExceeded) && !timeless {
 			// dial timeouts are 5 s (private) / 15 s; a dial whose context expired earlier was not bounded by its own timeout
 			if r := lastRec(a); r != nil && r.ctxErrAtEnd != nil && r.endAt-r.startAt < 5*time.Second {
 				o.Violate("C05/shared-attempt-cancelled", "%s (own context alive) was told that the dial of %s timed out, but its context ended %v after it started (dial timeouts are 5 s / 15 s): %s",
@@ -793,7 +810,7 @@ func checkCaller(o *common.Outcome, w *world, c *caller, callers []*caller, exac
 			if r.peer != c.peer || r.addr != tg.key || r.end == 0 || r.end > c.ret {
 				continue
 			}
-			if !r.ok {
+			if !r.ok || tg.script == sLie { // a connection to the wrong peer is a failed dial for the swarm
 				failedBefore = true
 			}
 			if r.start > ss && !r.cancelledAtStart {
